@@ -1,5 +1,5 @@
-import MsqModel.Cache
-/-! helper lemmas for C17: the directory map, path resolution of good names, the `.sql` suffix, a completed save -/
+import MsqProofs.Lemmas.CacheEnc
+/-! helper lemmas for C17: the directory map, path resolution of encoded names, the `.sql` suffix, a completed save -/
 namespace Cache
 
 theorem fget_fset_same (fs : Files) (f : Name) (t : Text) : fget (fset fs f t) f = some t := by
@@ -91,46 +91,40 @@ theorem resolveP_plain (files : Files) (p : Name) (hs : ∀ c ∈ p, c ≠ '/') 
   simp only [hnul, Bool.false_eq_true, ↓reduceIte, splitSlash_noSlash _ hs]
   rw [if_neg hhead, hf]
 
-theorem good_chars (n : Name) (hg : Good n = true) : (∀ c ∈ n, c ≠ '/') ∧ (∀ c ∈ n, c ≠ '\x00') := by
-  unfold Good at hg
-  have h1 : (!n.contains '/') = true := by
-    cases hh : n.contains '/' <;> simp_all
-  have h2 : (!n.contains '\x00') = true := by
-    cases hh : n.contains '\x00' <;> simp_all
-  exact ⟨not_contains h1, not_contains h2⟩
-
 theorem ext_chars : (∀ c ∈ ext, c ≠ '/') ∧ (∀ c ∈ ext, c ≠ '\x00') := by
   constructor <;> intro c h <;> simp [ext] at h <;> rcases h with h | h | h | h <;> subst h <;> decide
 
 theorem tmpExt_chars : (∀ c ∈ tmpExt, c ≠ '/') ∧ (∀ c ∈ tmpExt, c ≠ '\x00') := by
   constructor <;> intro c h <;> simp [tmpExt] at h <;> rcases h with h | h | h | h <;> subst h <;> decide
 
-theorem resolve_good (files : Files) (n : Name) (hg : Good n = true) : resolve files n = .inDir (n ++ ext) := by
-  obtain ⟨h1, h2⟩ := good_chars n hg
+/-- **every** table name resolves to the file `<enc name>.sql` directly in the cache directory -/
+theorem resolve_enc (files : Files) (n : Name) : resolve files n = .inDir (enc n ++ ext) := by
+  have hc := enc_chars n
   apply resolveP_plain
-  · intro c hc
-    rcases List.mem_append.1 hc with h | h
-    · exact h1 c h
+  · intro c hc'
+    rcases List.mem_append.1 hc' with h | h
+    · exact (hc c h).1
     · exact ext_chars.1 c h
-  · intro c hc
-    rcases List.mem_append.1 hc with h | h
-    · exact h2 c h
+  · intro c hc'
+    rcases List.mem_append.1 hc' with h | h
+    · exact (hc c h).2
     · exact ext_chars.2 c h
   · simp [ext]
 
-theorem resolveTmp_good (files : Files) (n : Name) (hg : Good n = true) : resolveTmp files n = .inDir (n ++ ext ++ tmpExt) := by
-  obtain ⟨h1, h2⟩ := good_chars n hg
+/-- … and its temporary file to `<enc name>.sql.tmp`, in the same directory -/
+theorem resolveTmp_enc (files : Files) (n : Name) : resolveTmp files n = .inDir (enc n ++ ext ++ tmpExt) := by
+  have hc := enc_chars n
   apply resolveP_plain
-  · intro c hc
-    rcases List.mem_append.1 hc with h | h
+  · intro c hc'
+    rcases List.mem_append.1 hc' with h | h
     · rcases List.mem_append.1 h with h | h
-      · exact h1 c h
+      · exact (hc c h).1
       · exact ext_chars.1 c h
     · exact tmpExt_chars.1 c h
-  · intro c hc
-    rcases List.mem_append.1 hc with h | h
+  · intro c hc'
+    rcases List.mem_append.1 hc' with h | h
     · rcases List.mem_append.1 h with h | h
-      · exact h2 c h
+      · exact (hc c h).2
       · exact ext_chars.2 c h
     · exact tmpExt_chars.2 c h
   · simp [ext, tmpExt]
@@ -181,22 +175,42 @@ theorem fget_fdel_other (fs : Files) (f g : Name) (h : g ≠ f) : fget (fdel fs 
 
 /-- the directory after a completed `save_to_disk` of text `t` for table `n` -/
 def saved (files : Files) (n : Name) (t : Text) : Files :=
-  fset (fdel (fset (fset files (n ++ ext ++ tmpExt) []) (n ++ ext ++ tmpExt) t) (n ++ ext ++ tmpExt)) (n ++ ext) t
+  fset (fdel (fset (fset files (enc n ++ ext ++ tmpExt) []) (enc n ++ ext ++ tmpExt) t) (enc n ++ ext ++ tmpExt)) (enc n ++ ext) t
 
-theorem fget_saved_final (files : Files) (n : Name) (t : Text) : fget (saved files n t) (n ++ ext) = some t := by
+theorem fget_saved_final (files : Files) (n : Name) (t : Text) : fget (saved files n t) (enc n ++ ext) = some t := by
   unfold saved
   exact fget_fset_same _ _ _
 
-theorem fget_saved_other (files : Files) (n : Name) (t : Text) (f : Name) (h1 : f ≠ n ++ ext) (h2 : f ≠ n ++ ext ++ tmpExt) :
+theorem fget_saved_other (files : Files) (n : Name) (t : Text) (f : Name) (h1 : f ≠ enc n ++ ext) (h2 : f ≠ enc n ++ ext ++ tmpExt) :
     fget (saved files n t) f = fget files f := by
   unfold saved
   rw [fget_fset_other _ _ _ _ h1, fget_fdel_other _ _ _ h2, fget_fset_other _ _ _ _ h2, fget_fset_other _ _ _ _ h2]
 
-theorem fget_saved_tmp (files : Files) (n : Name) (t : Text) : fget (saved files n t) (n ++ ext ++ tmpExt) = none := by
+theorem fget_saved_tmp (files : Files) (n : Name) (t : Text) : fget (saved files n t) (enc n ++ ext ++ tmpExt) = none := by
   unfold saved
-  rw [fget_fset_other _ _ _ _ (tmp_ne_final n n), fget_fdel_same]
+  rw [fget_fset_other _ _ _ _ (tmp_ne_final (enc n) (enc n)), fget_fdel_same]
 
 theorem append_ext_inj {n m : Name} (h : n ++ ext = m ++ ext) : n = m := List.append_cancel_right h
+
+/-- two table names never share a cache file -/
+theorem file_inj {n m : Name} (h : enc n ++ ext = enc m ++ ext) : n = m := enc_injective (append_ext_inj h)
+
+/-- the directory entry `<enc n>.sql` is read back as table `n` -/
+theorem entryName_enc (n : Name) : entryName (enc n ++ ext) = some n := by
+  simp [entryName, stripSql_ext, decStem_enc]
+
+/-- a directory entry is read as table `n` only if it is the file `<enc n>.sql` -/
+theorem entryName_some (f n : Name) (h : entryName f = some n) : f = enc n ++ ext := by
+  unfold entryName at h
+  cases hs : stripSql f with
+  | none => rw [hs] at h; cases h
+  | some s =>
+    rw [hs] at h
+    have := (decStem_iff s n).1 h
+    rw [stripSql_some f s hs, this]
+
+theorem entryName_tmp (x : Name) : entryName (x ++ tmpExt) = none := by
+  simp [entryName, stripSql_tmp]
 
 theorem mget_append {σ : Type} (mem : List (Name × σ)) (n m : Name) (st : σ) :
     mget (mem ++ [(n, st)]) m = match mget mem m with | some x => some x | none => if n = m then some st else none := by
